@@ -116,9 +116,9 @@ class MultistartOptimizer(Optimizer):
         # NOTE: If the optimizer does not satisfy the constraints, use a point that is in the domain.
         if best_point is None and not success:
           best_point = point
-          continue
-        best_point = end_point
-        best_function_value = function_value if not numpy.isnan(function_value) else best_function_value
+        else:
+          best_point = end_point
+          best_function_value = function_value if not numpy.isnan(function_value) else best_function_value
 
       if self.num_multistarts == 0:
         if len(function_value_list) == len(selected_starts):
